@@ -242,6 +242,7 @@ def run(ctx):
     r.note("R15-c: %d statics examined" % ns)
 
     session_state(ctx, "R15-d")
+    accumulated_state_is_write_only(ctx, "R15-g")
 
     import c05
     c05.check_input_loop(ctx, "R15-e")
@@ -387,3 +388,41 @@ def loop_state(ctx, rid):
                                 "for a file depends on the files before it on the command line" % name,
                                 ["%s:%d" % (f.file, f.line)])
     r.floor(rid, n, 1, "per-input loops analysed")
+
+
+def accumulated_state_is_write_only(ctx, rid):
+    """R15-g: what a Session remembers about earlier inputs never reaches a decision about a later one"""
+    p, r = ctx.p, ctx.r
+    r.rule(rid, "`Session::source_file` (the files emitted so far, kept for tests and the library user) is written by "
+                "handle_formatted_file and read by no function of the library; and `formatting::should_skip_module` — the one "
+                "place that decides which files of an input are formatted — calls nothing but its five tests (contains_skip, "
+                "skip_children, ignore_file, format_generated_files / is_generated_file and the source lookup for it): in "
+                "particular no method of the FormatHandler (the Session).  A file that is skipped because an *earlier input* "
+                "already produced it is formatted under that input's configuration only, and the later occurrence contributes "
+                "neither bytes nor exit status")
+    idx = p.field_index()
+    readers = set()
+    for (adt, var, field), modes in idx.items():
+        if adt == SESSION and field == "source_file":
+            readers |= {fid for fid in modes.get("r", ()) if "::test" not in fid and "unit_tests" not in fid}
+    r.instance(rid, "readers of Session.source_file in the library: %s" % sorted(short(x) for x in readers), "violation" if readers else "ok",
+               "src/lib.rs")
+    for fid in sorted(readers)[:2]:
+        f = p.fns[fid]
+        r.violation(rid, "Session.source_file is read by %s" % short(fid),
+                    "the list of files emitted earlier in the session feeds a computation of the library", ["%s:%d" % (f.file, f.line)])
+    sm = p.fn("rustfmt_nightly::formatting::should_skip_module")
+    if sm is None:
+        r.undecidable(rid, "formatting::should_skip_module not found")
+        return
+    ALLOWED = ("contains_skip", "skip_children", "ignore_file", "format_generated_files", "is_generated_file", "span_to_file_contents",
+               "attrs", "as_ref", "expect", "eq", "ne", "deref")
+    unit = [sm] + [g for g in p.by_crate["rustfmt_nightly"] if g.id.startswith(sm.id + "::{closure")]
+    odd = [c for g in unit for c in g.calls() if c.name.rsplit("::", 1)[-1] not in ALLOWED
+           and (c.name.startswith("rustfmt_nightly::") or c.name.startswith("<rustfmt_nightly::") or (c.declared or "").startswith("rustfmt_nightly::"))]
+    r.instance(rid, "should_skip_module consults only its five tests", "violation" if odd else "ok", "%s:%d" % (sm.file, sm.line),
+               str(sorted({short(c.name) for c in odd}))[:120])
+    if odd:
+        r.violation(rid, "should_skip_module consults %s" % short(odd[0].name),
+                    "which files are formatted depends on something besides the skip attribute, skip_children, the ignore list and "
+                    "@generated", [odd[0].loc()])
